@@ -70,15 +70,7 @@ def parseOp (seen : List Nat) : List String → Option Op
   | ["wait", k, ver] => do pure (.wait (kk k) (← verOf seen ver))
   | _ => none
 
-def comp : Component where
-  σ := St
-  init := { redis := false, im := Inmem.new, rd := Redis.new, sp := Spec.new, seenI := [], seenS := [] }
-  newCase := fun ws => match ws with
-    | b :: _ => some { redis := b == "redis", im := Inmem.new, rd := Redis.new, sp := Spec.new, seenI := [], seenS := [] }
-    | _ => none
-  step := fun st ws => match ws with
-    | _ :: "subms" :: _ => some (st, "ok")     -- sub-millisecond expiry scenario: Go-side monitor only (the model's clock ticks in ms)
-    | now :: rest => do
+def stepPlain (st : St) (now : String) (rest : List String) : Option (St × String) := do
       let now ← now.toNat?
       let opI ← parseOp st.seenI rest
       let opS ← parseOp st.seenS rest
@@ -90,6 +82,20 @@ def comp : Component where
       let (seenS, txtS) := render st1.seenS oS
       pure ({ st1 with sp := sp', seenI := seenI, seenS := seenS },
         if txtI = txtS then txtI else txtI ++ " !spec=" ++ txtS)
+
+def comp : Component where
+  σ := St
+  init := { redis := false, im := Inmem.new, rd := Redis.new, sp := Spec.new, seenI := [], seenS := [] }
+  newCase := fun ws => match ws with
+    | b :: _ => some { redis := b == "redis", im := Inmem.new, rd := Redis.new, sp := Spec.new, seenI := [], seenS := [] }
+    | _ => none
+  step := fun st ws => match ws with
+    | _ :: "subms" :: _ => some (st, "ok")     -- sub-millisecond expiry scenario: Go-side monitor only (the model's clock ticks in ms)
+    | now :: op :: rest =>
+      if op.startsWith "!" then
+        -- a call made with a context that was already done and REFUSED for that reason: nothing changes
+        some (st, "ctxErr")
+      else stepPlain st now (op :: rest)
     | _ => none
 
 end DrvKv
